@@ -189,6 +189,65 @@ def rule_M1_M2(chk, unit, label=""):
     return n1, n2
 
 
+def rule_M5_pool_reset(chk, lib):
+    """M5: a pooled slot is reset before it can be handed out again. free_element() does not reset the
+    element (tasks keep their dependency pointer), so clear()/clear_after() must reset EVERY element of
+    the range they release - unconditionally, whether or not its in-use flag is still set. Otherwise a
+    recycled Task carries a pointer to a lock that may have been deleted meanwhile (use after free)."""
+    n = 0
+    fns = [d for d in lib.decls if d["kind"] == "function" and d.get("clsq") == "ThreadSafeVector"
+           and d["name"] in ("clear", "clear_after") and not d.get("dependent")]
+    fns += [d for d in lib.decls if d["kind"] == "function" and d.get("clsq") == "ThreadSafeVector"
+            and d["name"] in ("clear", "clear_after") and d.get("dependent")]
+    if not fns:
+        raise AnalysisBroken("ThreadSafeVector::clear / clear_after not found")
+    for fn in fns:
+        chk.analysed(function=fn["full"])
+        inst = "%s%s resets every element it releases" % (fn["full"], " (template)" if fn.get("dependent") else "")
+        # (a) wholesale re-allocation of the element array
+        realloc = [x for x in C.walk_stmt(fn["body"]) if x.get("k") == "Bin" and x["op"] == "=" and
+                   C.member_name(x["a"]) == "_vector" and C.strip_casts(x["b"]).get("k") == "New"]
+        g = C.CFG(fn)
+        if realloc:
+            nodes = [nd for nd in g.nodes if nd.kind == "stmt" and any(y is realloc[0] for y in C.walk(nd.ast))]
+            okk = bool(nodes) and g.all_paths_pass(g.entry.id, {nd.id for nd in nodes})
+            n += 1
+            chk.require(okk, "M5", inst, where(fn), "the element array is not re-created on every path",
+                        function=fn["full"], construct="pool reset")
+            continue
+        # (b) a loop over the released range that re-assigns each element
+        loops = [s for s in C.walk_stmt(fn["body"]) if s.get("k") == "For"]
+        okk = False
+        detail = "no loop resetting the elements found"
+        for lp in loops:
+            resets = [x for x in C.walk_stmt(lp["body"])
+                      if (x.get("k") == "Bin" and x["op"] == "=" or x.get("k") == "Call" and x.get("op") == "=")]
+            resets = [x for x in resets if (G_root(x) == "_vector")]
+            if not resets:
+                continue
+            gb = C.CFG(fn, body=lp["body"], name=fn["full"] + " loop body")
+            rn = [nd for nd in gb.nodes if nd.kind == "stmt" and any(any(y is r for r in resets) for y in C.walk(nd.ast))]
+            uncond = bool(rn) and gb.all_paths_pass(gb.entry.id, {nd.id for nd in rn})
+            cnd = C.strip_casts(lp["c"]) if lp.get("c") else None
+            upper = cnd is not None and cnd.get("k") == "Bin" and cnd["op"] == "<" and C.member_name(cnd["b"]) == "_size"
+            okk = uncond and upper
+            detail = ("the reset of _vector[i] is skipped on some path through the loop body (e.g. for elements "
+                      "already returned with free_element(), which are NOT reset by free_element)"
+                      if not uncond else "the loop does not run up to _size")
+            break
+        n += 1
+        chk.require(okk, "M5", inst, where(fn), detail, function=fn["full"], construct="pool reset")
+    # the premise: free_element really does not reset (if it did, the rule above could be relaxed)
+    chk.floor("M5", n, 2)
+    return n
+
+
+def G_root(x):
+    from ..grammar import lv_key, key_root_member
+    tgt = x["a"] if x.get("k") == "Bin" else x.get("obj")
+    return key_root_member(lv_key(tgt)) if tgt is not None else None
+
+
 def run(chk, prog):
     chk.explanation = (
         "Ownership discipline decided for every class of the library at once: every pointer member "
@@ -203,6 +262,7 @@ def run(chk, prog):
     n1, n2 = rule_M1_M2(chk, u)
     chk.floor("M1", n1, 60)
     chk.floor("M2", n2, 40)
+    rule_M5_pool_reset(chk, u)
     # fixture: a class that must be reported, and a twin that must not
     fx = dump_fixture(os.path.join(VERIF, "fixtures", "c12_m1.hpp.cpp"))
     from ..report import Check
